@@ -119,6 +119,9 @@ type Obligation struct {
 	Goal   *Term // nil for cover (expect sat)
 	Ctx    *Ctx
 	Cover  bool
+	NoAxioms bool
+	Axioms []*Term
+	Tier string
 	Logic  string
 	// filled by the driver
 	Res *SolveResult
